@@ -1,0 +1,71 @@
+//go:build verif
+
+// Contracts for the gowp verifier (/verif). Comment-only; compiled only with -tags verif.
+package rueidiscompat
+
+// ---------------------------------------------------------------------------------------------
+// C41 — Pipeline / TxPipeline (pipeline.go, tx.go). A pipeline keeps two lists side by side: the commands captured by its
+// proxy client and the result holders handed to the caller; holder i belongs to command i. Every operation keeps the two
+// lists the same length, Exec hands reply i to holder i, Discard empties both.
+//@ func proxy.Do
+//@   modifies *p, p.cmds[*]
+//@   ensures [C41 the-command-is-captured-at-the-end-of-the-queue] len(p.cmds) == old(len(p.cmds)) + 1 && p.cmds[len(p.cmds) - 1] == cmd
+//@   ensures [C41 earlier-commands-stay-in-place] forall k int :: (0 <= k && k < old(len(p.cmds))) ==> p.cmds[k] == old(p.cmds[k])
+
+//@ func Pipeline.Len
+//@   requires typeis(c.comp.client, *proxy)
+//@   ensures [C41 len-is-the-number-of-queued-commands] result == len(ptrof(c.comp.client, *proxy).cmds)
+
+// argument formatting: may run a user's MarshalBinary, which is assumed not to write the pipeline it is being queued into
+//@ func str
+//@   option noframe=assumed: a user-supplied encoding.BinaryMarshaler does not write the pipeline's queue
+
+//@ func Pipeline.Do
+//@   option opaque-pkgs=github.com/redis/rueidis/internal/cmds
+//@   requires typeis(c.comp.client, *proxy) && ptrof(c.comp.client, *proxy) != nil
+//@   requires len(c.rets) == len(ptrof(c.comp.client, *proxy).cmds)
+//@   modifies *
+//@   let P = ptrof(c.comp.client, *proxy)
+//@   ensures [C41 one-holder-per-queued-command] len(c.rets) == len(P.cmds)
+//@   ensures [C41 a-rejected-call-queues-nothing] len(args) == 0 ==> (len(c.rets) == old(len(c.rets)) && len(P.cmds) == old(len(P.cmds)))
+//@   ensures [C41 an-accepted-call-queues-one-command-and-returns-its-holder] len(args) > 0 ==> (len(c.rets) == old(len(c.rets)) + 1 && asiface(result) == c.rets[len(c.rets) - 1])
+
+//@ func Pipeline.Discard
+//@   requires typeis(c.comp.client, *proxy) && ptrof(c.comp.client, *proxy) != nil
+//@   modifies *
+//@   ensures [C41 discard-drops-every-queued-command-and-holder] len(c.rets) == 0 && len(ptrof(c.comp.client, *proxy).cmds) == 0
+
+//@ func Cmder.from
+//@   modifies *
+//@ func Cmder.SetErr
+//@   modifies *
+//@ func Cmder.Err
+//@   modifies *
+
+//@ func Pipeline.Exec
+//@   requires typeis(c.comp.client, *proxy) && ptrof(c.comp.client, *proxy) != nil
+//@   requires len(c.rets) == len(ptrof(c.comp.client, *proxy).cmds)
+//@   modifies *
+//@   safety C41 index,slice
+//@   assert [C41 the-whole-queue-is-sent-as-one-batch-in-queue-order] at DoMulti: len(arg2) == old(len(ptrof(c.comp.client, *proxy).cmds)) && arg2 == old(ptrof(c.comp.client, *proxy).cmds)
+//@   assert [C41 reply-i-goes-to-holder-i] at from: arg0 == rets[i] && 0 <= i && i < len(rets)
+//@   ensures [C41 one-result-per-queued-command-in-queue-order] old(len(c.rets)) > 0 ==> (len(result0) == old(len(c.rets)) && result0 == old(c.rets))
+//@   assert [C41 the-queue-is-emptied-before-the-batch-is-sent] at DoMulti: len(c.rets) == 0 && len(ptrof(c.comp.client, *proxy).cmds) == 0
+//@   loop 0: invariant [C41] rangeindex >= -1 && len(rets) == old(len(c.rets))
+
+// TxPipeline.Exec: MULTI, the queued commands in queue order, EXEC — one batch; element i of the EXEC reply goes to
+// holder i; a nil EXEC reply (WATCH abort) and only that is reported as TxFailedErr.
+//@ func TxPipeline.Exec
+//@   option opaque-pkgs=github.com/redis/rueidis/internal/cmds
+//@   requires typeis(c.comp.client, *proxy) && ptrof(c.comp.client, *proxy) != nil
+//@   requires len(c.rets) == len(ptrof(c.comp.client, *proxy).cmds)
+//@   modifies *
+//@   let N = old(len(ptrof(c.comp.client, *proxy).cmds))
+//@   assert [C41 multi-the-queue-in-order-exec-as-one-batch] at DoMulti: len(arg2) == N + 2 && (forall k int :: (0 <= k && k < N) ==> arg2[k + 1] == before(append, arg0[k]))
+//@   assert [C41 the-queue-is-emptied-before-the-batch-is-sent] at DoMulti: len(c.rets) == 0 && len(ptrof(c.comp.client, *proxy).cmds) == 0
+//@   assert [C41 watch-abort-is-read-off-the-exec-reply] at IsRedisNil: arg0 == second(returned(ToArray))
+//@   assert [C41 exec-element-i-goes-to-holder-i] at from: arg0 == rets[i]
+//@   assert [C41 exec-element-i-is-paired-with-the-transport-error-of-command-i] at NewResult: arg0 == r && arg1 == returned(NonRedisError)
+//@   loop 0: invariant [C41] 0 <= i && i <= N && len(cmds) == N + 2 && len(rets) == N
+//@   loop 0: invariant [C41] forall k int :: (0 <= k && k < i) ==> cmds[k] == before(append, arg0[k])
+//@   loop 0: invariant [C41] forall k int :: (i < k && k <= N) ==> cmds[k] == before(append, arg0[k - 1])
